@@ -167,37 +167,35 @@ Proof.
   apply inv_each. intros f _. destruct (is_embedded f); [apply He|exact I].
 Qed.
 
-(* what map_make needs to know about the functions that contain crash sites *)
+Lemma map_manual_g key T D : forall l w r, inv Q (map_manual key T D l w r).
+Proof.
+  induction l as [|[f fd] rest IH]; intros w r; cbn [map_manual]; cbv zeta; [exact I|].
+  repeat (first [apply IH | inv_step]).
+Qed.
+
+(* what map_make needs to know about the only functions that can crash: the two expansions *)
 Definition map_parts_ok (ld : loaded) : Prop :=
   (forall t, inv Q (expand LMapEmbed (S (List.length (top_tspecs (ld_files ld)))) (top_tspecs (ld_files ld)) t)) /\
-  (forall t, inv Q (expand LMapEmbed (S (List.length (top_tspecs (ld_dest ld)))) (top_tspecs (ld_dest ld)) t)) /\
-  (forall T, inv Q (map_ctors (ld_files ld) T)) /\ (forall T, inv Q (map_ctors (ld_dest ld) T)) /\
-  (forall T, inv Q (map_accessors (ld_files ld) T)) /\ (forall T, inv Q (map_accessors (ld_dest ld) T)) /\
-  (forall key T D w r, inv Q (map_manual key T D (funcs_of (ld_files ld)) w r)).
+  (forall t, inv Q (expand LMapEmbed (S (List.length (top_tspecs (ld_dest ld)))) (top_tspecs (ld_dest ld)) t)).
 
 Lemma map_make_g fl ld T : map_parts_ok ld -> inv Q (map_make fl ld T).
 Proof.
-  intros (He1 & He2 & Hc1 & Hc2 & Ha1 & Ha2 & Hm).
+  intros (He1 & He2).
   unfold map_make, map_parse_fields. cbv zeta.
   apply inv_bind; [now apply map_walk_g|intros].
   apply inv_bind; [inv_auto|intros].
   apply inv_bind; [now apply map_walk_g|intros].
   match goal with |- inv _ (if ?b then _ else _) => destruct b end; [inv_auto|].
-  repeat (apply inv_bind;
-          [ first [ apply Hm
-                  | match goal with |- inv _ (if ?b then _ else _) => destruct b end;
-                    first [apply Hc1 | apply Hc2 | apply Ha1 | apply Ha2 | exact I] ]
-          | intros ]).
-  exact I.
+  apply inv_bind; [apply map_manual_g|intros; exact I].
 Qed.
 
 Definition parts_ok (ld : loaded) : Prop :=
   (forall t, inv Q (expand LNewEmbed (S (List.length (top_tspecs (ld_files ld)))) (top_tspecs (ld_files ld)) t)) /\
-  map_parts_ok ld /\ (forall fl, inv Q (confirm_types fl ld)).
+  map_parts_ok ld.
 
 Lemma make_data_g i fl ld T : parts_ok ld -> inv Q (make_data i fl ld T).
 Proof.
-  intros (Hn & Hm & _). unfold make_data. destruct (fl_sub fl);
+  intros (Hn & Hm). unfold make_data. destruct (fl_sub fl);
     [now apply new_make_g|apply enum_make_g|apply rest_make_g|now apply map_make_g].
 Qed.
 
@@ -209,9 +207,16 @@ Proof.
   repeat (first [apply IH | inv_step]).
 Qed.
 
+Lemma confirm_types_g fl ld : inv Q (confirm_types fl ld).
+Proof.
+  unfold confirm_types. destruct (fl_specified fl); [|exact I].
+  apply inv_bind; [|intros; exact I].
+  apply inv_each. intros T _. inv_auto.
+Qed.
+
 Lemma generate_g i fl ld : parts_ok ld -> inv Q (generate i fl ld).
 Proof.
-  intros Hp. unfold generate. apply inv_bind; [apply Hp|intros [types fmap] _].
+  intros Hp. unfold generate. apply inv_bind; [apply confirm_types_g|intros [types fmap] _].
   apply inv_bind; [now apply gen_loop_g|intros [sep merged] _].
   apply inv_bind; [inv_auto|intros; exact I].
 Qed.
@@ -236,49 +241,8 @@ Proof.
   apply inv_each. intros f _. destruct (is_embedded f); [apply IH|exact I].
 Qed.
 
-Ltac crash_ok :=
-  repeat match goal with
-         | |- inv _ (Ok _) => exact I
-         | |- inv _ (Stop (Panic _)) => exact I
-         | |- inv _ (if ?b then _ else _) => destruct b
-         | |- inv _ (match ?x with _ => _ end) => destruct x
-         end.
-
-Lemma map_ctors_q files T : inv fatal_or_crash (map_ctors files T).
-Proof.
-  unfold map_ctors. apply inv_each. intros [g f] _. crash_ok.
-  apply inv_each. intros q _. crash_ok.
-Qed.
-
-Lemma map_accessors_q files T : inv fatal_or_crash (map_accessors files T).
-Proof.
-  unfold map_accessors. cbv zeta. destruct (unexported_fields files T); [exact I|].
-  apply inv_each. intros [g f] _. crash_ok.
-Qed.
-
-Lemma map_manual_q key T D : forall l w r, inv fatal_or_crash (map_manual key T D l w r).
-Proof.
-  induction l as [|[f fd] rest IH]; intros w r; cbn [map_manual]; cbv zeta; [exact I|].
-  repeat (first [apply IH | exact I | reflexivity
-                | match goal with
-                  | |- inv _ (if ?b then _ else _) => destruct b
-                  | |- inv _ (match ?x with _ => _ end) => destruct x
-                  end]).
-Qed.
-
-Lemma confirm_types_q fl ld : inv fatal_or_crash (confirm_types fl ld).
-Proof.
-  unfold confirm_types. destruct (fl_specified fl).
-  - apply inv_bind; [|intros; exact I].
-    apply inv_each. intros T _. destruct (fl_file fl =? ""); [exact I|]. apply inv_guard. reflexivity.
-  - destruct (_ && _); exact I.
-Qed.
-
 Lemma parts_ok_q ld : parts_ok fatal_or_crash ld.
-Proof.
-  repeat split; intros;
-    first [apply expand_q | apply map_ctors_q | apply map_accessors_q | apply map_manual_q | apply confirm_types_q].
-Qed.
+Proof. repeat split; intros; apply expand_q. Qed.
 
 (* ------------------------------ pass 2: no crash on well-formed packages *)
 
@@ -406,95 +370,12 @@ Proof.
     destruct (pos n tops) as [p|] eqn:Hp; [|lia]. apply pos_lt in Hp. lia.
 Qed.
 
-Lemma safe_in files g f : safe_funcs files = true -> In (g, f) (funcs_of files) -> safe_fdecl f = true.
-Proof. unfold safe_funcs. rewrite forallb_forall. intros H Hin. exact (H (g, f) Hin). Qed.
-
-Lemma named_in ps p : named ps = true -> In p ps -> pa_names p <> [].
-Proof.
-  unfold named. rewrite forallb_forall. intros H Hin E. specialize (H p Hin). rewrite E in H. discriminate.
-Qed.
-
-Ltac split_safe H :=
-  unfold safe_fdecl in H; repeat (apply andb_prop in H; let H' := fresh "Hs" in destruct H as [H H']).
-
-Lemma map_ctors_nc files T : safe_funcs files = true -> inv no_crash (map_ctors files T).
-Proof.
-  intros Hs. unfold map_ctors. apply inv_each. intros [g f] Hin.
-  pose proof (safe_in files g f Hs Hin) as Hf. split_safe Hf.
-  destruct (fn_recv f); [exact I|].
-  destruct (negb (fn_name f =? "New" ++ T)); [exact I|].
-  destruct (fn_results f) as [[|r [|]]|]; try exact I.
-  destruct (pa_type r); try exact I. destruct t; try exact I.
-  destruct (negb (n =? T)); [exact I|].
-  destruct (fn_params f) as [|p ps] eqn:Hp; [exact I|].
-  destruct (fn_body f); [|discriminate].
-  apply inv_each. intros q Hq. destruct (pa_names q) eqn:Hn; [|exact I].
-  exfalso. exact (named_in _ q Hs3 Hq Hn).
-Qed.
-
-Lemma map_accessors_nc files T : safe_funcs files = true -> inv no_crash (map_accessors files T).
-Proof.
-  intros Hs. unfold map_accessors. cbv zeta. destruct (unexported_fields files T); [exact I|].
-  apply inv_each. intros [g f] Hin.
-  pose proof (safe_in files g f Hs Hin) as Hf. split_safe Hf.
-  destruct (fn_recv f) as [[|r rs]|] eqn:Hr; try exact I.
-  destruct (negb (mem (fn_name f) _)); [exact I|].
-  destruct (recv_base r); try exact I.
-  destruct (negb (n =? T)); [exact I|].
-  destruct (String.prefix "Set" (fn_name f)) eqn:Hset.
-  - destruct (negb (no_results f)); [exact I|].
-    destruct (fn_params f) as [|p [|]]; try exact I. cbn in Hs0. discriminate.
-  - destruct (fn_params f); [|exact I].
-    destruct (fn_results f) as [[|]|]; try exact I. discriminate.
-Qed.
-
-Lemma map_manual_nc key T D : forall l w r,
-  (forall g f, In (g, f) l -> safe_fdecl f = true) -> inv no_crash (map_manual key T D l w r).
-Proof.
-  induction l as [|[f fd] rest IH]; intros w r Hs; cbn [map_manual]; cbv zeta; [exact I|].
-  assert (Hrest : forall w r, inv no_crash (map_manual key T D rest w r)).
-  { intros. apply IH. intros g f0 Hin. apply (Hs g f0). now right. }
-  pose proof (Hs f fd (or_introl eq_refl)) as Hf. split_safe Hf.
-  destruct (fn_recv fd) as [[|recv rs]|] eqn:Hr; try apply Hrest.
-  match goal with |- inv _ (if ?b then _ else _) => destruct b end; [apply Hrest|].
-  destruct (pa_type recv) eqn:Hrt; cbv iota beta;
-    try (solve [first [apply Hrest | match goal with |- inv _ (if ?b then _ else _) => destruct b; [exact I|apply Hrest] end]]).
-
-  match goal with |- inv _ (if ?b then _ else _) => destruct b end; [apply Hrest|].
-  destruct (fn_params fd) as [|p [|]] eqn:Hp; try apply Hrest.
-  match goal with |- inv _ (if ?b then _ else _) => destruct b end; [apply Hrest|].
-  assert (Hpn : pa_names p <> []) by (apply (named_in [p] p); [exact Hs3|now left]).
-  assert (Hrn : pa_names recv <> []) by (apply (named_in (recv :: rs) recv); [exact Hs2|now left]).
-  destruct (fn_body fd); [|discriminate].
-  match goal with |- inv _ (if ?b then _ else _) => destruct b end.
-  - match goal with |- inv _ (if ?b then _ else _) => destruct b end; [exact I|].
-    destruct w; [exact I|]. destruct (pa_names p); [congruence|apply Hrest].
-  - match goal with |- inv _ (if ?b then _ else _) => destruct b end; [exact I|].
-    destruct r; [exact I|]. destruct (pa_names recv); [congruence|apply Hrest].
-Qed.
-
-Lemma confirm_types_nc fl ld : has_pkg_clauses (ld_files ld) = true -> inv no_crash (confirm_types fl ld).
-Proof.
-  intros Hc. unfold confirm_types. destruct (fl_specified fl).
-  - apply inv_bind; [|intros; exact I].
-    apply inv_each. intros T _. destruct (fl_file fl =? ""); [exact I|]. apply inv_guard. exact I.
-  - assert (E : existsb (fun f => f_pkg f =? "") (ld_files ld) = false).
-    { unfold has_pkg_clauses in Hc. induction (ld_files ld) as [|f r IH]; [reflexivity|].
-      cbn in *. apply andb_prop in Hc as [H1 H2]. rewrite (IH H2). destruct (f_pkg f =? ""); [discriminate|reflexivity]. }
-    rewrite E, andb_false_r. exact I.
-Qed.
-
 (* the guard of the classification theorem, on what LoadPackage returned *)
 Definition loaded_wf (ld : loaded) : Prop :=
-  embedding_wf (top_tspecs (ld_files ld)) /\ embedding_wf (top_tspecs (ld_dest ld)) /\
-  safe_funcs (ld_files ld) = true /\ safe_funcs (ld_dest ld) = true /\ has_pkg_clauses (ld_files ld) = true.
+  embedding_wf (top_tspecs (ld_files ld)) /\ embedding_wf (top_tspecs (ld_dest ld)).
 
 Lemma parts_ok_nc ld : loaded_wf ld -> parts_ok no_crash ld.
-Proof.
-  intros (W1 & W2 & S1 & S2 & C). repeat split; intros;
-    first [ now apply expand_wf | now apply map_ctors_nc | now apply map_accessors_nc | now apply confirm_types_nc | idtac ].
-  apply map_manual_nc. intros g f Hin. exact (safe_in _ g f S1 Hin).
-Qed.
+Proof. intros (W1 & W2). repeat split; intros; now apply expand_wf. Qed.
 
 (* ------------------------------------------------ the writing phases *)
 
@@ -654,9 +535,8 @@ Qed.
 
 (* the guard of the classification theorem on the input *)
 Definition input_wf (i : input) : Prop :=
-  embedding_wf (top_tspecs (i_files i)) /\ safe_funcs (i_files i) = true /\ has_pkg_clauses (i_files i) = true /\
-  forall sp n fs, In (sp, DestPkg n fs) (i_dests i) ->
-                  embedding_wf (top_tspecs fs) /\ safe_funcs fs = true.
+  embedding_wf (top_tspecs (i_files i)) /\
+  forall sp n fs, In (sp, DestPkg n fs) (i_dests i) -> embedding_wf (top_tspecs fs).
 
 Lemma embedding_wf_nil : embedding_wf [].
 Proof.
@@ -673,28 +553,24 @@ Qed.
 
 Lemma load_package_wf i fl ld : input_wf i -> load_package i fl = Ok ld -> loaded_wf ld.
 Proof.
-  intros (W & S & C & D). unfold load_package. cbv zeta.
-  assert (Hfiles : embedding_wf (top_tspecs (files_of i (fl_dir fl))) /\ safe_funcs (files_of i (fl_dir fl)) = true /\
-                   has_pkg_clauses (files_of i (fl_dir fl)) = true).
-  { unfold files_of. destruct (is_pkgdir i (fl_dir fl)); [auto|split; [apply embedding_wf_nil|split; reflexivity]]. }
-  destruct Hfiles as (Wf & Sf & Cf).
+  intros (W & D). unfold load_package. cbv zeta.
+  assert (Wf : embedding_wf (top_tspecs (files_of i (fl_dir fl)))).
+  { unfold files_of. destruct (is_pkgdir i (fl_dir fl)); [auto|apply embedding_wf_nil]. }
   destruct (match fl_sub fl with
             | CMap => _
             | _ => _
             end) as [d|s] eqn:Hd; cbn [bind]; [|discriminate].
-  assert (Hdest : embedding_wf (top_tspecs match d with Some (DestPkg _ fs) => fs | _ => [] end) /\
-                  safe_funcs match d with Some (DestPkg _ fs) => fs | _ => [] end = true).
-  { destruct d as [[n fs|]|]; try (split; [apply embedding_wf_nil|reflexivity]).
+  assert (Wd : embedding_wf (top_tspecs match d with Some (DestPkg _ fs) => fs | _ => [] end)).
+  { destruct d as [[n fs|]|]; try apply embedding_wf_nil.
     destruct (fl_sub fl); try discriminate.
     destruct (fl_dest fl =? ".").
     - injection Hd as <- <-. auto.
     - destruct (assoc (fl_dest fl) (i_dests i)) as [d'|] eqn:Ha; [|discriminate].
       injection Hd as ->. apply assoc_in in Ha. apply (D _ _ _ Ha). }
-  destruct Hdest as [Wd Sd].
   repeat match goal with
          | |- bind (guard ?b ?d) _ = _ -> _ => destruct b; cbn [guard bind fatal]; [|discriminate]
          end.
-  intros E. injection E as <-. repeat split; assumption.
+  intros E. injection E as <-. split; assumption.
 Qed.
 
 (* T3: on well-formed inputs a run always ends in a deliberate exit *)
@@ -821,21 +697,12 @@ Definition w_map_unnamed : input :=
                     manual "toDest" [{| pa_names := ["t"]; pa_type := TStar (TId "T") |}]
                                     [{| pa_names := []; pa_type := TStar (TSel "dest" "T") |}] (Some [])]]
     [] [("../dest", dest_pkg)].
-Lemma map_unnamed_panics : fst (run id_order no_fault w_map_unnamed) = Panic PManualParamName.
-Proof. vm_compute. reflexivity. Qed.
-Lemma map_unnamed_unsafe : safe_funcs (i_files w_map_unnamed) = false.
-Proof. vm_compute. reflexivity. Qed.
-
-(* K_map_nil_body: the same method with a named parameter but without a body *)
 Definition w_map_nil_body : input :=
   mkinput ["map"; "-path=../dest"; "-type=T"]
     [gofile "s.go" [DType [t_struct];
                     manual "toDest" [{| pa_names := ["t"]; pa_type := TStar (TId "T") |}]
                                     [{| pa_names := ["d"]; pa_type := TStar (TSel "dest" "T") |}] None]]
     [] [("../dest", dest_pkg)].
-Lemma map_nil_body_panics : fst (run id_order no_fault w_map_nil_body) = Panic PManualNilBody.
-Proof. vm_compute. reflexivity. Qed.
-
 (* K_map_accessor_arity: a shoot-new type with func (t *T) SetName() {} *)
 Definition sn_struct : tspec := strct "T" [fld "ID" (TId "int"); fld "name" (TId "string")].
 Definition w_map_setter : input :=
@@ -844,16 +711,18 @@ Definition w_map_setter : input :=
                     manual "ShootNew" [{| pa_names := ["t"]; pa_type := TId "T" |}] [] (Some []);
                     manual "SetName" [{| pa_names := ["t"]; pa_type := TStar (TId "T") |}] [] (Some [])]]
     [] [("../dest", dest_pkg)].
-Lemma map_setter_panics : fst (run id_order no_fault w_map_setter) = Panic PSetterNoParam.
-Proof. vm_compute. reflexivity. Qed.
-
 (* K_testfile_no_package_clause: an empty .go file in the directory and -file *)
 Definition w_no_clause : input :=
   mkinput ["new"; "-file=a.go"]
     [gofile "a.go" [DType [strct "A" [fld "x" (TId "int")]]];
      {| f_name := "empty.go"; f_pkg := ""; f_imports_dest := []; f_decls := [] |}] [] [].
-Lemma no_clause_panics :
-  fst (run id_order no_fault w_no_clause) = Panic PTestFileNoPos /\ has_pkg_clauses (i_files w_no_clause) = false.
+(* the four repaired defects: the former witnesses of K_map_unnamed_names, K_map_nil_body,
+   K_map_accessor_arity and K_testfile_no_package_clause are handled and end in success *)
+Lemma repaired_witnesses_succeed :
+  fst (run id_order no_fault w_map_unnamed) = Exit DSuccess /\
+  fst (run id_order no_fault w_map_nil_body) = Exit DSuccess /\
+  fst (run id_order no_fault w_map_setter) = Exit DSuccess /\
+  fst (run id_order no_fault w_no_clause) = Exit DSuccess.
 Proof. vm_compute. auto. Qed.
 
 (* K_clean_unreadable_after_write: a directory named like an output, all-in-one mode *)
@@ -933,7 +802,7 @@ Qed.
 
 Lemma ex_input_wf args : input_wf (ex_input args).
 Proof.
-  split; [exact ex_wf|]. split; [reflexivity|]. split; [reflexivity|]. intros sp n fs [].
+  split; [exact ex_wf|]. intros sp n fs [].
 Qed.
 
 Lemma ex_runs :
@@ -945,10 +814,10 @@ Proof. vm_compute. auto. Qed.
 (* the decidable guard implies the guard of the classification theorem *)
 Lemma input_ok_wf i : input_ok i = true -> input_wf i.
 Proof.
-  unfold input_ok. intros H. repeat (apply andb_prop in H; let H' := fresh "H" in destruct H as [H H']).
-  split; [now apply ordered_wf|]. split; [assumption|]. split; [assumption|].
+  unfold input_ok. intros H. apply andb_prop in H as [H H0].
+  split; [now apply ordered_wf|].
   intros sp n fs Hin. rewrite forallb_forall in H0. specialize (H0 (sp, DestPkg n fs) Hin). cbn in H0.
-  apply andb_prop in H0 as [Ho Hs]. split; [now apply ordered_wf|assumption].
+  now apply ordered_wf.
 Qed.
 
 Lemma run_is_exit_ok sigma io i : input_ok i = true -> is_exit (fst (run sigma io i)).
